@@ -43,6 +43,8 @@ ARITH_OPS = {"Add", "Sub", "Mul", "AddWithOverflow", "SubWithOverflow", "MulWith
 ID_STEP = {"packet_id::add", "u32::wrapping_add"}
 ORDER_CALLS = {"Ord::cmp", "Ord::min", "Ord::max", "PartialOrd::partial_cmp", "PartialOrd::lt", "PartialOrd::le", "PartialOrd::gt", "PartialOrd::ge", "u32::saturating_sub", "u32::checked_sub", "u32::abs_diff"}
 SCOPE_PREFIX = ("half_connection::",)
+PID_MODULES = ("half_connection::packet_sender::", "half_connection::packet_receiver::", "half_connection::pending_packet::")
+FID_MODULES = ("half_connection::frame_queue::", "half_connection::frame_ack_queue::", "half_connection::reorder_buffer::")
 # bodies that define the modular operations themselves
 EXEMPT = {"half_connection::packet_id::add", "half_connection::packet_id::sub", "half_connection::packet_id::is_valid"}
 
@@ -222,6 +224,18 @@ def id_arith_discipline(cx, iid, which=None):
                     ex = b.call_expr(t)
                     if ex[0] == "call":
                         visit(ex)
+                        # two id spaces: packet ids are 20-bit (packet_id::add/sub), frame ids 32-bit (wrapping_add/sub);
+                        # the modules that handle only one of them must not use the other space's arithmetic
+                        if ex[1] in ("u32::wrapping_sub", "u32::wrapping_add") and b.path.startswith(PID_MODULES) and any(ik.kind(b, x) == "id" for x in ex[2]):
+                            s0 = show(ex)
+                            if s0 not in seen_here:
+                                seen_here.add(s0)
+                                inst.violation(b.path, re.sub(r"var\d+", "var", s0)[:120], "32-bit modular arithmetic on a 20-bit packet id: `%s` — use packet_id::add / packet_id::sub (the difference of two packet ids across the 2^20 wrap is off by 2^32 - 2^20)" % s0[:140])
+                        if ex[1] in ("packet_id::sub", "packet_id::add") and b.path.startswith(FID_MODULES) and any(ik.kind(b, x) == "id" for x in ex[2]):
+                            s0 = show(ex)
+                            if s0 not in seen_here:
+                                seen_here.add(s0)
+                                inst.violation(b.path, re.sub(r"var\d+", "var", s0)[:120], "20-bit packet-id arithmetic on a 32-bit frame id: `%s`" % s0[:140])
                         if ex[1] in ("packet_id::sub", "u32::wrapping_sub", "packet_id::add", "u32::wrapping_add") and any(ik.kind(b, x) == "id" for x in ex[2]):
                             s = show(ex)
                             if s not in seen_here:
